@@ -674,9 +674,11 @@ def evNow : Ev → Nat
   | .crit _ => 0
   | .failNext _ => 0
   | .failBind _ => 0
+  | .stamp _ _ _ _ _ => 0
 
 /-- The arm of the event loop an event belongs to (`none`: the configuration / injection events, which do not
-touch the links). -/
+touch the links; the verdict stamps are the tail of the housekeeping arm and only need `Closed.soft`: they
+write four fields outside the accounting view). -/
 def evArm : Ev → Option Arm
   | .client _ _ => some .client
   | .uplink _ _ _ => some .uplink
@@ -686,6 +688,18 @@ def evArm : Ev → Option Arm
   | .crit _ => none
   | .failNext _ => none
   | .failBind _ => none
+  | .stamp _ _ _ _ _ => some .hk
+
+/-- A verdict stamp is outside the accounting view and writes no time stamp. -/
+theorem soft_verdicts (now : Nat) (weak ld ccb : Bool) (cct : Nat) (l : FLink F) :
+    Soft now l { l with weak := weak, lossDegraded := ld, ccBackingOff := ccb, ccTarget := cct } := soft_rfl
+
+theorem soft_stampOne (now idx : Nat) (weak ld ccb : Bool) (cct : Nat) (j : Nat) (l : FLink F) :
+    Soft now l (Hk.stampOne idx weak ld ccb cct j l) := by
+  unfold Hk.stampOne
+  split
+  · exact soft_verdicts now weak ld ccb cct l
+  · exact Soft.refl now l
 
 /-- **The traversal theorem.**  For every event constructor: a predicate that survives the per-link
 operations of the event's arm at the event's clock and holds of every link before the event holds of
@@ -702,5 +716,17 @@ theorem step_all {P : FLink F → Prop} (s : Sys F) (e : Ev)
   | crit d => exact h
   | failNext cid => exact h
   | failBind cid => exact h
+  | stamp idx weak ld ccb cct =>
+    intro l' hl'
+    obtain ⟨j, hj⟩ := List.getElem?_of_mem hl'
+    have hj' : (stampLink s.links idx weak ld ccb cct)[j]? = some l' := hj
+    rw [Hk.stampLink_get] at hj'
+    cases hlj : s.links[j]? with
+    | none => rw [hlj] at hj'; cases hj'
+    | some l =>
+      rw [hlj] at hj'
+      simp only [Option.map_some, Option.some.injEq] at hj'
+      rw [← hj']
+      exact (hc .hk rfl).soft _ _ (soft_stampOne 0 idx weak ld ccb cct j l) (h l (List.mem_of_getElem? hlj))
 
 end Srtla.SysInv
